@@ -43,7 +43,7 @@ func (S06) Info() scen.Info {
 			"failing encoder input": "stub: read-only proxy node whose k-th accessor returns an error",
 			"goroutine scheduling":  "stub: seeded one-at-a-time scheduler (a second client loads another block while the fault is in flight)",
 		},
-		QuickUnits: 240, ThoroughUnits: 12000, QuickSecs: 60, ThoroughSecs: 1200,
+		QuickUnits: 240, ThoroughUnits: 12000, QuickSecs: 240, ThoroughSecs: 1200,
 		ProbeKeys: []string{"probe.decode_failed_then_drained", "probe.error_at_eof_position", "probe.hash_collision_short_digest", "probe.late_error_after_complete_block", "probe.second_client_interleaved", "probe.hashmismatch_precedence_over_decode_error", "probe.reifier_loads_through_given_linksystem"},
 		EventsKey: "events",
 	}
